@@ -282,6 +282,11 @@ func (ph *ptraceHandle) handleTrap(pid int) error {
 		ctx, err := getTrapContext(pid)
 		if err != nil {
 			verifEvent("trap", "pid", pid, "nr", int64(0), "act", -1, "err", verifErr(err))
+			// the tracee was killed while it sat in the seccomp stop: nothing to decide,
+			// wait4 will report its death
+			if err == unix.ESRCH {
+				return nil
+			}
 			return err
 		}
 		act := ph.Handler.Handle(ctx)
@@ -291,7 +296,10 @@ func (ph *ptraceHandle) handleTrap(pid int) error {
 		case TraceBan:
 			// Set the syscallno to -1 and return value into register to skip syscall.
 			// https://www.kernel.org/doc/Documentation/prctl/pkg/seccomp_filter.txt
-			return ctx.skipSyscall()
+			if err := ctx.skipSyscall(); err != nil && err != unix.ESRCH {
+				return err
+			}
+			return nil
 
 		case TraceKill:
 			return runner.StatusDisallowedSyscall
